@@ -70,6 +70,12 @@ def run(c):
          extra_cuts=c.false_edges(X + "Extension::rewind_single_block", r"^global::is_nrd_enabled\(\)$") +
          [e for e in _non_nrd(c, X + "Extension::rewind_single_block")],
          desc="rewind_single_block rewinds the NRD kernel index for every NRD kernel of the rewound block (when NRD is enabled)") if False else None
+    RSB = X + "Extension::rewind_single_block"
+    c.r2_arg("nrd-rewind-position", RSB, "re:RewindableListIndex::rewind$|linked_list::.*::rewind$", 3, must=["call:Batch::get_previous_header", "re:\\.kernel_mmr_size$"],
+             must_not=["re:\\.output_mmr_size$"], desc="rewind_single_block rewinds the NRD kernel index to the previous header's kernel MMR size")
+    c.r2_edge("nrd-rewind-gated", RSB, [(r"^global::is_nrd_enabled\(\)$", "true")], "re:RewindableListIndex::rewind$|linked_list::.*::rewind$")
+    c.r2_arg("rewind-mmr-positions-output", RSB, X + "Extension::rewind_mmrs_to_pos", 1, must=["re:\\.output_mmr_size$"], where=r"get_previous_header", floor=1)
+    c.r2_arg("rewind-mmr-positions-kernel", RSB, X + "Extension::rewind_mmrs_to_pos", 2, must=["re:\\.kernel_mmr_size$"], where=r"get_previous_header", floor=1)
     # --- pool path
     AP = TP + "add_to_pool"
     for sink in ("add_to_stempool", "add_to_txpool"):
